@@ -1314,6 +1314,16 @@ theorem hasUnderscoreKey_false {l : EventParse.Obj} (hk : ∀ kv ∈ l, kv.1 ∈
   rw [this]
   exact Bool.false_ne_true
 
+theorem allKeys_no_variant : ∀ k ∈ allKeys, structFieldNames.any (fun n => k != n && foldBytes k == foldBytes n) = false := by decide
+
+/-- the keys `Build` writes are exact names: none is a case variant of a struct field name -/
+theorem hasFieldVariant_false {l : EventParse.Obj} (hk : ∀ kv ∈ l, kv.1 ∈ allKeys) : hasFieldVariant (.obj l) = false := by
+  simp only [hasFieldVariant, List.any_eq_false]
+  intro kv hkv
+  have := allKeys_no_variant kv.1 (hk kv hkv)
+  rw [this]
+  exact Bool.false_ne_true
+
 /-! ## The receiver's stripping on an event without local keys -/
 
 def strip4 : List Bytes := [b!"outlier", b!"destinations", b!"age_ts", b!"unsigned"]
@@ -1419,7 +1429,7 @@ theorem construct_obj_inv {fmt : Fmt} {ver : Bytes} {red : Bool} {text : Bytes} 
 theorem trustedCore_inv {H : Bytes → Bytes} {row : VGen.VersionRow} {ver : Bytes} {red : Bool} {text : Bytes} {j : JVal} {e : PDU}
     (h : trustedCore H row ver red text j = .ok e) :
     ∃ fmt e0, fmtOfName row.newEventFromTrustedJSONFunc = some fmt ∧ construct fmt ver red text j = .ok e0 ∧
-      populateEventID H row e0 = .ok e := by
+      populateEventID H row (resetID fmt e0) = .ok e := by
   unfold trustedCore at h
   split at h
   · cases h
@@ -1470,6 +1480,7 @@ theorem parseUntrusted_intro {H : Bytes → Bytes} {ver text : Bytes} {row : VGe
     (hrow : rowOf ver = some row) (hfmt : fmtOfName row.newEventFromUntrustedJSONFunc = some fmt) (henf : enforces row = some enf)
     (hp : parse text = some p) (hpj : p.toJVal = .obj S)
     (hus : hasUnderscoreKey (.obj S) = false) (hnum : (enf && !p.numbersOk) = false) (hnd : (JVal.obj S).noDupKeys = true)
+    (hnv : hasFieldVariant (.obj S) = false)
     (d1 : (decodeFields fmt (deleteKeys (stripKeys fmt) S)).err = false)
     (d2 : (decodeFields fmt (deleteKeys (stripKeys fmt) S)).unmodelled = false)
     (d3 : checkRoom fmt (decodeFields fmt (deleteKeys (stripKeys fmt) S)).f = .ok ())
@@ -1481,7 +1492,7 @@ theorem parseUntrusted_intro {H : Bytes → Bytes} {ver text : Bytes} {row : VGe
     (hcf : checkFields (received ver fmt (deleteKeys (stripKeys fmt) S) id) = .ok ()) :
     parseUntrusted H ver text = .ok (received ver fmt (deleteKeys (stripKeys fmt) S) id) := by
   unfold parseUntrusted
-  simp only [hrow, hfmt, henf, hp, hpj, hus, hnum, hnd, Bool.false_eq_true, if_false, Bool.not_true]
+  simp only [hrow, hfmt, henf, hp, hpj, hus, hnum, hnd, hnv, Bool.false_eq_true, if_false, Bool.not_true]
   have hst : stripped fmt (.obj S) = .obj (deleteKeys (stripKeys fmt) S) := rfl
   rw [hst, construct_intro d1 d2 d3]
   simp only
@@ -1518,17 +1529,25 @@ theorem trustedCore_shape {H : Bytes → Bytes} {row : VGen.VersionRow} {ver : B
       e = { ver := ver, fmt := fmt, redacted := red, json := text, obj := kvs,
             f := { (decodeFields fmt kvs).f with eventIDRaw := id } } ∧
       (fmt = .v1 → id = (decodeFields fmt kvs).f.eventIDRaw) ∧
-      (fmt ≠ .v1 → (decodeFields fmt kvs).f.eventIDRaw = [] → referenceID H row ver (.obj kvs) = .ok id) := by
+      (fmt ≠ .v1 → referenceID H row ver (.obj kvs) = .ok id) := by
   obtain ⟨fmt, e0, hf, hc, hpop⟩ := trustedCore_inv h
   obtain ⟨d1, d2, d3, he0⟩ := construct_obj_inv hc
   subst he0
   by_cases hv : fmt = .v1
-  · rw [populate_v1 (by exact hv)] at hpop
+  · subst hv
+    have hr : resetID Fmt.v1 { ver := ver, fmt := Fmt.v1, redacted := red, json := text, obj := kvs, f := (decodeFields Fmt.v1 kvs).f } =
+        { ver := ver, fmt := Fmt.v1, redacted := red, json := text, obj := kvs, f := (decodeFields Fmt.v1 kvs).f } := rfl
+    rw [hr, populate_v1 rfl] at hpop
     cases hpop
-    exact ⟨fmt, _, hf, d1, d2, d3, rfl, fun _ => rfl, fun hne => absurd hv hne⟩
-  · obtain ⟨hs, hid⟩ := populate_ok hpop
-    refine ⟨fmt, e.f.eventIDRaw, hf, d1, d2, d3, hs, fun h1 => absurd h1 hv, fun _ hr => ?_⟩
-    exact hid hv hr
+    exact ⟨Fmt.v1, _, hf, d1, d2, d3, rfl, fun _ => rfl, fun hne => absurd rfl hne⟩
+  · have hb : (fmt == Fmt.v1) = false := by simp [hv]
+    have hr : resetID fmt { ver := ver, fmt := fmt, redacted := red, json := text, obj := kvs, f := (decodeFields fmt kvs).f } =
+        { ver := ver, fmt := fmt, redacted := red, json := text, obj := kvs, f := { (decodeFields fmt kvs).f with eventIDRaw := [] } } := by
+      simp [resetID, hb]
+    rw [hr] at hpop
+    obtain ⟨hs, hid⟩ := populate_ok hpop
+    refine ⟨fmt, e.f.eventIDRaw, hf, d1, d2, d3, hs, fun h1 => absurd h1 hv, fun _ => ?_⟩
+    exact hid hv rfl
 
 theorem members_event_id_nil {S : EventParse.Obj} (hk : ∀ kv ∈ S, kv.1 ∈ allKeys) (hne : ∀ kv ∈ S, kv.1 ≠ b!"event_id") :
     members S b!"event_id" = [] := by
